@@ -22,7 +22,7 @@ var (
 	iamResources = []string{"*", "arn:aws:s3:::*", "arn:aws:s3:::b1/*", "arn:aws:s3:::b2/*", "arn:aws:s3:::b*/*", "arn:aws:s3:::*/*", "arn:aws:s3:::b1",
 		"arn:aws:s3:::b1/sub/*", "arn:aws:iam:::b1/*", "arn:aws:s3::b1/*", "arn:aws:s3:::/*", "arn:aws:s3:::b1/x", "arn:aws:s3:us-east-1:123:b2/*",
 		"arn:aws:s3:::b1*/*", "b1/*", "arn:aws:s3:::b1/*:x", "arn:aws:s3:::*b/*", "arn:aws:s3:::other/*", ""}
-	iamBuckets     = []string{"b1", "b2", "b12", "other", "xb", ""}
+	iamBuckets     = []string{"b1", "b2", "b12", "b1-private", "other", "others", "xb", "b", ""}
 	iamCheckAction = []string{"Read", "Write", "List", "Tagging", "Admin"}
 )
 
